@@ -32,8 +32,7 @@ NONLIN = "nonlin"
 _LIN_ALL_DATA = [
     "add", "add_any", "sub", "neg", "concatenate", "pad", "slice", "squeeze", "reshape", "broadcast_in_dim",
     "transpose", "rev", "reduce_sum", "cumsum", "fft", "copy", "copy_p", "expand_dims", "complex", "split",
-    "reduce_precision", "symbolic_zeros", "zeros_like", "psum", "all_gather", "select_and_gather_add",
-    "real_to_complex",
+    "zeros_like", "psum", "all_gather",
 ]
 # linear in the data operands once the listed operands are fixed (they must be input-independent)
 _LIN_WITH_PARAMS = {
@@ -58,8 +57,8 @@ _NONLIN = [
     "reduce_xor", "argmax", "argmin", "sort", "cumprod", "cummax", "cummin", "cumlogsumexp", "top_k", "stop_gradient",
     "scatter-mul", "scatter_mul", "scatter-min", "scatter_min", "scatter-max", "scatter_max", "select_and_scatter_add",
     "random_bits", "random_wrap", "random_unwrap", "random_seed", "threefry2x32", "erf_inv", "polygamma", "igamma",
-    "cholesky", "lu", "qr", "svd", "eigh", "eig", "triangular_solve", "custom_linear_solve", "iota", "eq_to", "le_to",
-    "lt_to", "bessel_i0e", "bessel_i1e", "regularized_incomplete_beta", "convert_element_type_to_int",
+    "cholesky", "lu", "qr", "svd", "eigh", "eig", "triangular_solve", "custom_linear_solve", "iota",
+    "bessel_i0e", "bessel_i1e", "regularized_incomplete_beta", "convert_element_type_to_int",
 ]
 _CALL_LIKE = {
     # primitive name -> name of the params entry holding the sub-jaxpr
@@ -80,7 +79,7 @@ _CONTROL = ["while", "scan", "cond", "switch"]
 # stable numbering of primitives (index = `prim` field of the emitted equations); new names are appended at run time
 PRIM_NAMES = (
     ["lit"] + _LIN_ALL_DATA + list(_LIN_WITH_PARAMS) + _BILINEAR + _DIV + _REAL + _CONJ
-    + ["convert_element_type", "convert_element_type[c->r]"] + _NONLIN
+    + ["convert_element_type", "convert_element_type[c->r]", "fft[irfft]"] + _NONLIN
 )
 _PRIM_INDEX = {}
 for _n in PRIM_NAMES:
@@ -125,6 +124,9 @@ def classify(eqn, dep_mask):
         if not (np.issubdtype(dst, np.floating) or np.issubdtype(dst, np.complexfloating)):
             return NONLIN, [], allpos, "convert_element_type_to_int"
         return LINALL, [], allpos, name
+    if name == "fft" and "IRFFT" in str(eqn.params.get("fft_type", "")):
+        # complex (Hermitian-symmetric) -> real: like `real`, linear over the reals only
+        return REAL, [], allpos, "fft[irfft]"
     if name in _LIN_ALL_DATA:
         return LINALL, [], allpos, name
     if name in _LIN_WITH_PARAMS:
